@@ -133,6 +133,9 @@ def selectSomeOrder (p : Proj) (names : List String) (pol : Policy) (q : Proj) :
 def clause (name : String) (b : Bool) : List String := if b then [] else [name]
 
 def specViolations (p : Proj) (o : Op) (r : Option Proj) : List String :=
+  (match r with
+   | some q => clause "profiles-ok" (decide (ProfilesOK p → ProfilesOK q))
+   | none => []) ++
   match o, r with
   | .profiles P, some q =>
     clause "conserved" (decide (Conserved p q)) ++ clause "profiles" (decide (ProfilesSpec p P q)) ++
